@@ -221,7 +221,10 @@ def intInputMapper (u : Option Units) : V → Out Int
     | none => match parseInt10 s with
       | some n => .ok n
       | none => .plain
-  | .int _ n => if n > maxInt64 then .plain else .ok n
+  | .int _ n =>
+    -- only uint/uint64 values can exceed int64 (`v > math.MaxInt64`); a Go integer of any kind is
+    -- never below MinInt64, so the lower half of this test is vacuous on real values
+    if inInt64 n then .ok n else .plain
   | .float _ b => match F64.toInt64Exact b with
     | some n => .ok n
     | none => .plain
